@@ -93,6 +93,9 @@ class PathInfo:
                 out.append((ev.e.subst(env), lab, ev))
         return out
 
+    def final_env(self):
+        return self.steps[-1][1] if self.steps and self.steps[-1][0].kind == 'end' else {}
+
     def ret(self):
         r = [(ev, env) for ev, env in self.steps if ev.kind == 'ret']
         if not r:
